@@ -108,10 +108,14 @@ def run(chk):
 
 
 GSRC = '''
+SHIFT = 1
+SEP = None
+
 def f(x):
     r = abs(x) + max(x, 1)
     t = SHIFT if x > 100 else 0
-    return (r, len([x]), t)
+    u = "-" if SEP is None else SEP
+    return (r, len([x]), t, u)
 '''
 
 
@@ -121,7 +125,9 @@ def globals_between_calls(chk, rng):
     instrumented function does what the untouched one does at that moment"""
     import ptera
     ops_pool = [("set", "abs", 7), ("set", "abs", 9), ("del", "abs"), ("set", "max", 3), ("del", "max"),
-                ("set", "SHIFT", 5), ("del", "SHIFT"), ("call", -4), ("call", 2), ("call", 200), ("call", -1)]
+                ("set", "SHIFT", 5), ("del", "SHIFT"), ("set", "SHIFT", None), ("set", "SHIFT", 0),
+                ("set", "SEP", "+"), ("set", "SEP", None), ("set", "SEP", 0), ("del", "SEP"),
+                ("call", -4), ("call", 2), ("call", 200), ("call", -1)]
     n = 40 if chk.tier == "quick" else 800
     stats = {"sequences": 0, "calls": 0}
     for i in range(n):
@@ -132,7 +138,7 @@ def globals_between_calls(chk, rng):
             out = []
             for op in seq:
                 if op[0] == "set":
-                    setattr(mod, op[1], (lambda k: (lambda *a: k))(op[2]) if op[1] != "SHIFT" else op[2])
+                    setattr(mod, op[1], (lambda k: (lambda *a: k))(op[2]) if op[1] in ("abs", "max") else op[2])
                 elif op[0] == "del":
                     if hasattr(mod, op[1]):
                         delattr(mod, op[1])
